@@ -1,0 +1,39 @@
+//! Verification trace buffer (compiled only with `--cfg swiftmt_verif`).
+//!
+//! Records one event per `MessageParser` primitive at its return (the library is
+//! sequential, so the return is the linearisation point). Events are kept in a
+//! thread-local buffer in call order and drained by the verification harness.
+
+use std::cell::RefCell;
+
+thread_local! {
+    static EVENTS: RefCell<Vec<String>> = const { RefCell::new(Vec::new()) };
+    static ENABLED: RefCell<bool> = const { RefCell::new(false) };
+}
+
+/// Turn recording on or off for the current thread (off by default).
+pub fn set_enabled(on: bool) {
+    ENABLED.with(|e| *e.borrow_mut() = on);
+}
+
+/// Drain and return the events recorded on the current thread.
+pub fn take() -> Vec<String> {
+    EVENTS.with(|e| std::mem::take(&mut *e.borrow_mut()))
+}
+
+/// Append one event (a JSON object without the surrounding braces' sequence number).
+pub fn emit(event: &str, fields: &[(&str, serde_json::Value)]) {
+    if !ENABLED.with(|e| *e.borrow()) {
+        return;
+    }
+    let mut obj = serde_json::Map::new();
+    obj.insert("event".to_string(), serde_json::Value::from(event));
+    for (k, v) in fields {
+        obj.insert((*k).to_string(), v.clone());
+    }
+    EVENTS.with(|e| {
+        let mut buf = e.borrow_mut();
+        obj.insert("seq".to_string(), serde_json::Value::from(buf.len() as u64 + 1));
+        buf.push(serde_json::Value::Object(obj).to_string());
+    });
+}
